@@ -14,6 +14,7 @@
   blobs and dtype casts, float printing/parsing, the csv loader.  No Mathlib.
 -/
 import Kapture.Gen.PairId
+import Kapture.Gen.ColmapCameras
 import Kapture.Model.C05
 import Kapture.Model.C06
 
@@ -22,12 +23,9 @@ open Kapture Kapture.Gen.PairId
 
 /-! ## camera model table (cameras.py:10-22) -/
 
-/-- `CAMERA_MODEL_NAME_ID` as (name, colmap model id, number of projection parameters after width and height).
-  The third column is specification side: kapture's `CAMERA_TYPE_PARAMS_COUNT[name] - 2` (checked by the harness). -/
-def cameraModels : List (String × Nat × Nat) :=
-  [("SIMPLE_PINHOLE", 0, 3), ("PINHOLE", 1, 4), ("SIMPLE_RADIAL", 2, 4), ("RADIAL", 3, 5), ("OPENCV", 4, 8),
-   ("OPENCV_FISHEYE", 5, 8), ("FULL_OPENCV", 6, 12), ("FOV", 7, 5), ("SIMPLE_RADIAL_FISHEYE", 8, 4),
-   ("RADIAL_FISHEYE", 9, 5), ("THIN_PRISM_FISHEYE", 10, 12)]
+/-- `CAMERA_MODEL_NAME_ID` as (name, colmap model id, number of projection parameters after width and height): GENERATED from the
+  live table of cameras.py and kapture's `CAMERA_TYPE_PARAMS_COUNT_FROM_NAME` on every run (Gen/ColmapCameras.lean) -/
+def cameraModels : List (String × Nat × Nat) := Gen.ColmapCameras.cameraModels
 
 /-- `CAMERA_MODEL_IDS[name]` (cameras.py:25) -/
 def modelIdIn : List (String × Nat × Nat) → String → Option Nat
